@@ -10,6 +10,7 @@ import (
 	"encoding/binary"
 	"encoding/hex"
 	"encoding/json"
+	"flag"
 	"fmt"
 	"math"
 	"os"
@@ -41,6 +42,30 @@ type Trailer struct {
 	Props []string   `json:"props"` // int properties
 	Rows  [][]uint64 `json:"rows"`
 }
+
+// OProp is a property of an element other than vertex/face: scalar (Ct == "") or list.
+type OProp struct {
+	Ct   string `json:"ct,omitempty"`
+	Ty   string `json:"ty"`
+	Name string `json:"name"`
+}
+
+// Other is an element the reader has no use for (edge, material, camera ...).
+type Other struct {
+	Pos   string       `json:"pos"` // before | between | after (relative to vertex and face)
+	Name  string       `json:"name"`
+	Props []OProp      `json:"props"`
+	Rows  [][][]uint64 `json:"rows"` // per row, per property, the words (one word for a scalar)
+}
+
+// VList is a list property declared on the vertex element (the reader reports it as unimplemented).
+type VList struct {
+	At   int        `json:"at"` // index in VProps before which it is declared
+	Ct   string     `json:"ct"`
+	Ty   string     `json:"ty"`
+	Name string     `json:"name"`
+	Vals [][]uint64 `json:"vals"` // per vertex
+}
 type Spec struct {
 	Fmt       string       `json:"fmt"` // ascii | binary_little_endian | binary_big_endian
 	VProps    []VProp      `json:"vprops"`
@@ -53,8 +78,10 @@ type Spec struct {
 	BodyBlank []int        `json:"body_blank"` // ASCII: body line indices before which an empty line is inserted
 	Sep       string       `json:"sep"`
 	Lead      bool         `json:"lead"`
-	FloatFmt  string       `json:"float_fmt"` // g | e | f
-	Trailer   *Trailer     `json:"trailer,omitempty"`
+	FloatFmt  string       `json:"float_fmt"`         // g | e | f
+	Trailer   *Trailer     `json:"trailer,omitempty"` // old replay files: an int element after the faces
+	Others    []Other      `json:"others,omitempty"`
+	VList     *VList       `json:"vlist,omitempty"`
 	Cut       int          `json:"cut,omitempty"` // malformed stream: number of bytes cut from the end
 }
 
@@ -102,27 +129,68 @@ func wordText(ty string, w uint64, ff string) string {
 	return fmtFloat(math.Float64frombits(w), ff)
 }
 
+func otherHeader(ls []string, s Spec, pos string) []string {
+	for _, o := range s.Others {
+		if o.Pos != pos {
+			continue
+		}
+		ls = append(ls, fmt.Sprintf("element %s %d", o.Name, len(o.Rows)))
+		for _, p := range o.Props {
+			if p.Ct != "" {
+				ls = append(ls, "property list "+p.Ct+" "+p.Ty+" "+p.Name)
+			} else {
+				ls = append(ls, "property "+p.Ty+" "+p.Name)
+			}
+		}
+	}
+	return ls
+}
+
 func headerLines(s Spec) []string {
-	ls := []string{"ply", "format " + s.Fmt + " 1.0", fmt.Sprintf("element vertex %d", len(s.Verts))}
-	for _, p := range s.VProps {
+	ls := []string{"ply", "format " + s.Fmt + " 1.0"}
+	ls = otherHeader(ls, s, "before")
+	ls = append(ls, fmt.Sprintf("element vertex %d", len(s.Verts)))
+	for i, p := range s.VProps {
+		if s.VList != nil && s.VList.At == i {
+			ls = append(ls, "property list "+s.VList.Ct+" "+s.VList.Ty+" "+s.VList.Name)
+		}
 		ls = append(ls, "property "+p.Alias+" "+p.Name)
 	}
+	if s.VList != nil && s.VList.At >= len(s.VProps) {
+		ls = append(ls, "property list "+s.VList.Ct+" "+s.VList.Ty+" "+s.VList.Name)
+	}
+	ls = otherHeader(ls, s, "between")
 	if s.HasFace {
 		ls = append(ls, fmt.Sprintf("element face %d", len(s.Faces)))
 		for _, p := range s.FProps {
 			ls = append(ls, "property list "+p.CtAlias+" "+p.LtAlias+" "+p.Name)
 		}
 	}
-	if s.Trailer != nil {
-		ls = append(ls, fmt.Sprintf("element %s %d", s.Trailer.Name, len(s.Trailer.Rows)))
-		for _, p := range s.Trailer.Props {
-			ls = append(ls, "property int "+p)
-		}
-	}
+	ls = otherHeader(ls, s, "after")
 	return append(ls, "end_header")
 }
 
+// normalise turns the Trailer of old replay files into an Other element.
+func normalise(s *Spec) {
+	if s.Trailer != nil {
+		o := Other{Pos: "after", Name: s.Trailer.Name}
+		for _, p := range s.Trailer.Props {
+			o.Props = append(o.Props, OProp{Ty: "int", Name: p})
+		}
+		for _, r := range s.Trailer.Rows {
+			var row [][]uint64
+			for _, w := range r {
+				row = append(row, []uint64{w})
+			}
+			o.Rows = append(o.Rows, row)
+		}
+		s.Others = append(s.Others, o)
+		s.Trailer = nil
+	}
+}
+
 func render(s Spec) []byte {
+	normalise(&s)
 	nl := "\n"
 	if s.CRLF {
 		nl = "\r\n"
@@ -136,70 +204,91 @@ func render(s Spec) []byte {
 		}
 		out = append(out, l+nl...)
 	}
-	if s.Fmt == "ascii" {
-		lineNo := 0
-		emit := func(toks []string) {
-			for _, b := range s.BodyBlank {
-				if b == lineNo {
-					out = append(out, nl...)
+	ascii := s.Fmt == "ascii"
+	be := s.Fmt == "binary_big_endian"
+	lineNo := 0
+	emit := func(toks []string) {
+		for _, b := range s.BodyBlank {
+			if b == lineNo {
+				out = append(out, nl...)
+			}
+		}
+		lineNo++
+		l := strings.Join(toks, s.Sep)
+		if s.Lead {
+			l = " " + l
+		}
+		out = append(out, l+nl...)
+	}
+	// one list (count + items) or scalar
+	list := func(toks []string, ct, ty string, ws []uint64) []string {
+		if ascii {
+			toks = append(toks, strconv.Itoa(len(ws)))
+			for _, w := range ws {
+				toks = append(toks, wordText(ty, w, s.FloatFmt))
+			}
+			return toks
+		}
+		out = putWord(out, ct, uint64(len(ws)), be)
+		for _, w := range ws {
+			out = putWord(out, ty, w, be)
+		}
+		return toks
+	}
+	scalar := func(toks []string, ty string, w uint64) []string {
+		if ascii {
+			return append(toks, wordText(ty, w, s.FloatFmt))
+		}
+		out = putWord(out, ty, w, be)
+		return toks
+	}
+	others := func(pos string) {
+		for _, o := range s.Others {
+			if o.Pos != pos {
+				continue
+			}
+			for _, r := range o.Rows {
+				var toks []string
+				for j, p := range o.Props {
+					if p.Ct != "" {
+						toks = list(toks, p.Ct, p.Ty, r[j])
+					} else {
+						toks = scalar(toks, p.Ty, r[j][0])
+					}
 				}
-			}
-			lineNo++
-			l := strings.Join(toks, s.Sep)
-			if s.Lead {
-				l = " " + l
-			}
-			out = append(out, l+nl...)
-		}
-		for _, rec := range s.Verts {
-			toks := make([]string, len(rec))
-			for j, w := range rec {
-				toks[j] = wordText(s.VProps[j].Ty, w, s.FloatFmt)
-			}
-			emit(toks)
-		}
-		for _, f := range s.Faces {
-			var toks []string
-			for j, ws := range f {
-				toks = append(toks, strconv.Itoa(len(ws)))
-				for _, w := range ws {
-					toks = append(toks, wordText(s.FProps[j].Lt, w, s.FloatFmt))
-				}
-			}
-			emit(toks)
-		}
-		if s.Trailer != nil {
-			for _, r := range s.Trailer.Rows {
-				toks := make([]string, len(r))
-				for j, w := range r {
-					toks[j] = wordText("int", w, s.FloatFmt)
-				}
-				emit(toks)
-			}
-		}
-	} else {
-		be := s.Fmt == "binary_big_endian"
-		for _, rec := range s.Verts {
-			for j, w := range rec {
-				out = putWord(out, s.VProps[j].Ty, w, be)
-			}
-		}
-		for _, f := range s.Faces {
-			for j, ws := range f {
-				out = putWord(out, s.FProps[j].Ct, uint64(len(ws)), be)
-				for _, w := range ws {
-					out = putWord(out, s.FProps[j].Lt, w, be)
-				}
-			}
-		}
-		if s.Trailer != nil {
-			for _, r := range s.Trailer.Rows {
-				for _, w := range r {
-					out = putWord(out, "int", w, be)
+				if ascii {
+					emit(toks)
 				}
 			}
 		}
 	}
+	others("before")
+	for i, rec := range s.Verts {
+		var toks []string
+		for j, w := range rec {
+			if s.VList != nil && s.VList.At == j {
+				toks = list(toks, s.VList.Ct, s.VList.Ty, s.VList.Vals[i])
+			}
+			toks = scalar(toks, s.VProps[j].Ty, w)
+		}
+		if s.VList != nil && s.VList.At >= len(rec) {
+			toks = list(toks, s.VList.Ct, s.VList.Ty, s.VList.Vals[i])
+		}
+		if ascii {
+			emit(toks)
+		}
+	}
+	others("between")
+	for _, f := range s.Faces {
+		var toks []string
+		for j, ws := range f {
+			toks = list(toks, s.FProps[j].Ct, s.FProps[j].Lt, ws)
+		}
+		if ascii {
+			emit(toks)
+		}
+	}
+	others("after")
 	if s.Cut > 0 && s.Cut < len(out) {
 		out = out[:len(out)-s.Cut]
 	}
@@ -310,7 +399,11 @@ func genWord(r *hx.Rng, ty string, ascii bool) uint64 {
 			int64(int32(uint32(r.U64()))), int64(r.Range(16777217, 33554432))})
 		return uint64(uint32(int32(v)))
 	case "uint":
-		return uint64(r.Intn(1 << 20))
+		return uint64(hx.Pick(r, []int{0, 1, r.Intn(1 << 20), 1<<31 - 1, r.Intn(1 << 31)}))
+	case "char":
+		return uint64(hx.Pick(r, []int{0, 1, 127, 128, 255, r.Intn(256)}))
+	case "short", "ushort":
+		return uint64(hx.Pick(r, []int{0, 1, 255, 256, 32767, 32768, 65535, r.Intn(65536)}))
 	case "float":
 		switch r.Intn(10) {
 		case 0:
@@ -358,6 +451,38 @@ func genWord(r *hx.Rng, ty string, ascii bool) uint64 {
 	}
 }
 
+// misplaced: also generate elements before vertex / between vertex and face (see notes/C08.md: the reader does not
+// read elements in header order; generated only when the finding is listed, flag -misplaced)
+var misplaced bool
+
+func genOther(r *hx.Rng, pos string, ascii bool) Other {
+	o := Other{Pos: pos, Name: hx.Pick(r, []string{"edge", "material", "camera", "tristrips", "cell"})}
+	np := r.Range(1, 3)
+	for j := 0; j < np; j++ {
+		p := OProp{Ty: hx.Pick(r, []string{"int", "float", "uchar", "double", "short", "uint"}), Name: fmt.Sprintf("%s_%d", hx.Pick(r, []string{"a", "vertex1", "red", "x", "vertex_indices"}), j)}
+		if r.Chance(1, 3) {
+			p.Ct = hx.Pick(r, []string{"uchar", "int", "ushort"})
+		}
+		o.Props = append(o.Props, p)
+	}
+	for k := r.Intn(4); k > 0; k-- {
+		var row [][]uint64
+		for _, p := range o.Props {
+			n := 1
+			if p.Ct != "" {
+				n = r.Intn(4)
+			}
+			var ws []uint64
+			for ; n > 0; n-- {
+				ws = append(ws, genWord(r, p.Ty, ascii))
+			}
+			row = append(row, ws)
+		}
+		o.Rows = append(o.Rows, row)
+	}
+	return o
+}
+
 type grp struct {
 	names   []string
 	natural string
@@ -371,8 +496,8 @@ func genSpec(r *hx.Rng) Spec {
 	if r.Chance(9, 10) {
 		gs = append(gs, grp{hx.Pick(r, [][]string{{"x", "y", "z"}, {"x", "y", "z"}, {"px", "py", "pz"}, {"posx", "posy", "posz"}}), "float"})
 	}
-	if r.Chance(1, 12) {
-		gs = append(gs, grp{[]string{"px", "py", "pz"}, "float"})
+	if r.Chance(1, 12) && (len(gs) == 0 || gs[0].names[0] != "px") {
+		gs = append(gs, grp{[]string{"px", "py", "pz"}, "float"}) // a second position group: the later reader wins
 	}
 	if r.Chance(1, 2) {
 		gs = append(gs, grp{hx.Pick(r, [][]string{{"nx", "ny", "nz"}, {"normalx", "normaly", "normalz"}}), "float"})
@@ -450,8 +575,41 @@ func genSpec(r *hx.Rng) Spec {
 	if len(s.VProps) > 14 {
 		s.VProps = s.VProps[:14]
 	}
-	for len(s.VProps) < 3 {
-		s.VProps = append(s.VProps, VProp{Ty: hx.Pick(r, vtypes), Name: fmt.Sprintf("extra_%d", len(s.VProps))})
+	for want := hx.Pick(r, []int{3, 3, 5, 8, 11, 14}); len(s.VProps) < want; {
+		k := r.Intn(len(s.VProps) + 1)
+		np := VProp{Ty: hx.Pick(r, []string{"float", "float", "int", "double", "uchar"}), Name: fmt.Sprintf("extra_%d", len(s.VProps))}
+		if np.Ty == "uchar" && !r.Chance(1, 3) {
+			np.Ty = "float"
+		}
+		s.VProps = append(s.VProps[:k], append([]VProp{np}, s.VProps[k:]...)...)
+	}
+	// uchar s/t texture coordinates are left out: vector2.DivByConstant multiplies by 1/255 where every other reader
+	// divides by 255, a difference of one unit in the last place for some bytes (float arithmetic, not layout)
+	si, ti := -1, -1
+	for i, p := range s.VProps {
+		if p.Name == "s" {
+			si = i
+		}
+		if p.Name == "t" {
+			ti = i
+		}
+	}
+	if si >= 0 && ti >= 0 && s.VProps[si].Ty == "uchar" && s.VProps[ti].Ty == "uchar" {
+		s.VProps[si].Ty, s.VProps[ti].Ty = "float", "float"
+	}
+	// names are distinct (a file with two properties of one name describes nothing definite)
+	seen := map[string]bool{}
+	for i := range s.VProps {
+		for seen[s.VProps[i].Name] {
+			s.VProps[i].Name += "_"
+		}
+		seen[s.VProps[i].Name] = true
+	}
+	// types outside the property's quantifier (char, short, ushort, uint) on a small share of the files
+	if r.Chance(1, 12) {
+		for k := 1 + r.Intn(2); k > 0; k-- {
+			s.VProps[r.Intn(len(s.VProps))].Ty = hx.Pick(r, []string{"char", "short", "ushort", "uint"})
+		}
 	}
 	for i := range s.VProps {
 		s.VProps[i].Alias = hx.Pick(r, aliases[s.VProps[i].Ty])
@@ -468,6 +626,12 @@ func genSpec(r *hx.Rng) Spec {
 		s.HasFace = true
 		ip := FProp{Ct: hx.Pick(r, []string{"uchar", "uchar", "int", "uint"}), Lt: hx.Pick(r, []string{"int", "uint"}),
 			Name: hx.Pick(r, []string{"vertex_indices", "vertex_indices", "vertex_index"})}
+		if r.Chance(1, 30) {
+			ip.Ct = hx.Pick(r, []string{"ushort", "char", "short"})
+		}
+		if r.Chance(1, 30) {
+			ip.Lt = hx.Pick(r, []string{"uchar", "short", "ushort"})
+		}
 		s.FProps = []FProp{ip}
 		tex := r.Chance(1, 4)
 		if tex {
@@ -491,11 +655,15 @@ func genSpec(r *hx.Rng) Spec {
 		if nv > 0 {
 			nf = r.Range(0, 5)
 		}
-		quads := r.Intn(3) // 0: triangles only, 1: mixed, 2: quads only
+		quads := r.Intn(3)      // 0: triangles only, 1: mixed, 2: quads only
+		ngon := r.Chance(1, 25) // the last face is not a triangle or quad (outside the property: reported)
 		for f := 0; f < nf; f++ {
 			pts := 3
 			if quads == 2 || (quads == 1 && r.Bool()) {
 				pts = 4
+			}
+			if ngon && f == nf-1 {
+				pts = hx.Pick(r, []int{5, 6, 2, 9})
 			}
 			var face [][]uint64
 			for _, p := range s.FProps {
@@ -522,7 +690,7 @@ func genSpec(r *hx.Rng) Spec {
 						case "int":
 							ws = append(ws, genWord(r, "int", true))
 						case "short":
-							ws = append(ws, uint64(r.Intn(65536)))
+							ws = append(ws, uint64(r.Intn(32768))) // non-negative as a short
 						default:
 							ws = append(ws, uint64(r.Intn(256)))
 						}
@@ -547,18 +715,88 @@ func genSpec(r *hx.Rng) Spec {
 			s.BodyBlank = append(s.BodyBlank, r.Intn(total))
 		}
 	}
-	if r.Chance(1, 10) {
-		t := &Trailer{Name: hx.Pick(r, []string{"edge", "material", "camera"}), Props: []string{"a", "b"}}
-		for k := r.Intn(3); k > 0; k-- {
-			t.Rows = append(t.Rows, []uint64{uint64(r.Intn(100)), uint64(r.Intn(100))})
+	// elements the reader has no use for
+	if r.Chance(1, 5) {
+		for k := 1 + r.Intn(2); k > 0; k-- {
+			pos := "after"
+			if misplaced && r.Chance(1, 2) {
+				pos = hx.Pick(r, []string{"before", "between"})
+			}
+			s.Others = append(s.Others, genOther(r, pos, ascii))
 		}
-		s.Trailer = t
+	}
+	// a list property on the vertex element (outside the property: reported as unimplemented)
+	if r.Chance(1, 30) {
+		vl := &VList{At: r.Intn(len(s.VProps) + 1), Ct: "uchar", Ty: hx.Pick(r, []string{"int", "float", "uchar"}), Name: "neighbours"}
+		for range s.Verts {
+			var ws []uint64
+			for k := r.Intn(4); k > 0; k-- {
+				ws = append(ws, genWord(r, vl.Ty, ascii)&0x7fffffff)
+			}
+			vl.Vals = append(vl.Vals, ws)
+		}
+		s.VList = vl
 	}
 	return s
 }
 
 // ---------------- cases ----------------
+// outside: why the file is outside the property's quantifier ("" when inside).
+func outside(s Spec) string {
+	for _, p := range s.VProps {
+		switch p.Ty {
+		case "uchar", "int", "float", "double":
+		default:
+			return "vertex property of type " + p.Ty
+		}
+	}
+	if s.VList != nil {
+		return "list property on the vertex element"
+	}
+	for _, p := range s.FProps {
+		switch p.Ct {
+		case "uchar", "int", "uint":
+		default:
+			return "list count type " + p.Ct
+		}
+		if p.Name == "vertex_indices" || p.Name == "vertex_index" {
+			if p.Lt != "int" && p.Lt != "uint" {
+				return "index type " + p.Lt
+			}
+		}
+		if p.Name == "texcoord" && p.Lt != "float" && p.Lt != "double" {
+			return "texcoord type " + p.Lt
+		}
+	}
+	for _, f := range s.Faces {
+		for j, ws := range f {
+			n := s.FProps[j].Name
+			if (n == "vertex_indices" || n == "vertex_index") && len(ws) != 3 && len(ws) != 4 {
+				return fmt.Sprintf("face with %d corners", len(ws))
+			}
+		}
+	}
+	return ""
+}
+
+// misplacedRows: another element with records stands before the vertex records or between vertex and face records.
+func misplacedRows(s Spec) (any, harmful bool) {
+	for _, o := range s.Others {
+		if o.Pos == "before" || o.Pos == "between" {
+			any = true
+			if len(o.Rows) > 0 && (o.Pos == "before" || s.HasFace) {
+				harmful = true
+			}
+		}
+	}
+	return
+}
+
+const keyElements = "ply:elements-not-read-in-header-order"
+const keyUcharRaw = "ply:ascii-uchar-scalar-raw"
+
 func specCase(s Spec, kind string) hx.Case {
+	normalise(&s)
 	data := render(s)
 	c := hx.Case{Kind: kind, Desc: s}
 	out := plyx.SafeRead(data)
@@ -577,10 +815,28 @@ func specCase(s Spec, kind string) hx.Case {
 		c.Nontriv = true
 		return c
 	}
-	c.Coq = fmt.Sprintf("CSpec %s\n %s\n %s", specCoq(s), file, plyx.OutcomeCoq(out))
+	if why := outside(s); why != "" {
+		// outside the quantifier: model against implementation only; a hang is still a failure
+		c.Kind = "outside"
+		c.Coq = fmt.Sprintf("CRaw %s %s", file, plyx.OutcomeCoq(out))
+		c.Nontriv = len(s.Verts) >= 1
+		if out.Class == "hang" || out.Class == "crash" {
+			c.GoFail = "ReadMesh on a file with a " + why + ": " + out.Class + ": " + out.Msg
+			c.FailKey = "ply:read-" + out.Class
+		}
+		return c
+	}
+	any, harmful := misplacedRows(s)
+	ctor := "CSpec"
+	if any {
+		ctor = "CElems"
+	}
+	c.Coq = fmt.Sprintf("%s %s\n %s\n %s", ctor, specCoq(s), file, plyx.OutcomeCoq(out))
 	c.Nontriv = len(s.Verts) >= 1 && len(s.VProps) >= 3
-	if s.Fmt == "ascii" && len(s.Verts) > 0 && len(ucharScalars(s)) > 0 {
-		c.FailKey = "ply:ascii-uchar-scalar-raw"
+	if harmful {
+		c.FailKey = keyElements
+	} else if s.Fmt == "ascii" && len(s.Verts) > 0 && len(ucharScalars(s)) > 0 {
+		c.FailKey = keyUcharRaw
 	}
 	if out.Class == "hang" || out.Class == "crash" {
 		c.GoFail = "ReadMesh on a specification-conformant file: " + out.Class + ": " + out.Msg
@@ -635,6 +891,7 @@ func corner() []Spec {
 }
 
 func main() {
+	flag.BoolVar(&misplaced, "misplaced", false, "also generate elements before vertex / between vertex and face")
 	run := hx.ParseFlags("C08", "Check.C08")
 	for _, in := range run.Inputs() {
 		var s Spec
@@ -681,6 +938,17 @@ func main() {
 		}
 		if c.FailKey != "" {
 			run.Count("failkey:" + c.FailKey)
+		}
+		if c.Kind == "outside" {
+			run.Count("outside:" + outside(s))
+		}
+		for _, o := range s.Others {
+			run.Count("other-element-" + o.Pos)
+		}
+		if s.Fmt != "ascii" && s.HasFace {
+			for _, p := range s.FProps {
+				run.Count("bin-list:" + p.Ct + "/" + p.Lt)
+			}
 		}
 		run.Add(c)
 	}
